@@ -10,6 +10,7 @@ import (
 	"strings"
 	"sync"
 	"time"
+	"unicode/utf8"
 
 	"github.com/welllog/golib/randz"
 )
@@ -150,6 +151,32 @@ func c20Impl(in []int64) []int64 {
 		g := randz.NewStrGenerator(string(ToBytes(cs)), src)
 		s := g.Generate(int(n))
 		return append(PutList(Bytes([]byte(s))), int64(src.calls))
+	case 5, 6:
+		// one generator object, several Generate calls in a row (5: a scripted source that runs on across the calls;
+		// 6: the package-level randz.String, i.e. the shared default generator over randz.CHAR_SET); model and judge: Run/C120.v
+		ns, cs, rest, ok := c20Multi(in)
+		if !ok {
+			return []int64{BADCASE}
+		}
+		var out []int64
+		if in[0] == 6 {
+			for _, n := range ns {
+				out = append(out, PutList(Bytes([]byte(randz.String(int(n)))))...)
+			}
+			return out
+		}
+		src := &c20Source{}
+		for i := 0; i+1 < len(rest); i += 2 {
+			src.script = append(src.script, c20Join(rest[i], rest[i+1]))
+		}
+		g := randz.NewStrGenerator(string(ToBytes(cs)), src)
+		for _, n := range ns {
+			before := src.calls
+			s := g.Generate(int(n))
+			out = append(out, PutList(Bytes([]byte(s)))...)
+			out = append(out, int64(src.calls-before))
+		}
+		return out
 	case 4:
 		idt, rest := GetList(in[1:])
 		if len(rest) == 0 {
@@ -170,6 +197,43 @@ func c20Impl(in []int64) []int64 {
 		return out
 	}
 	return []int64{BADCASE}
+}
+
+// kinds 5, 6: kind :: k :: n_1..n_k :: put_list charset ++ words
+func c20Multi(in []int64) (ns, cs, rest []int64, ok bool) {
+	if len(in) < 2 || in[1] < 0 || in[1] > 64 || int64(len(in)) < 2+in[1] {
+		return nil, nil, nil, false
+	}
+	ns = in[2 : 2+in[1]]
+	for _, n := range ns {
+		if n < 0 {
+			return nil, nil, nil, false
+		}
+	}
+	cs, rest = GetList(in[2+in[1]:])
+	return ns, cs, rest, true
+}
+
+// kinds 5 and 6 are evaluated by coq/Run/C120.v
+func c20NumOf(in []int64) int {
+	if len(in) > 0 && (in[0] == 5 || in[0] == 6) {
+		return 120
+	}
+	return 20
+}
+
+// kind 6 (randz.String, real random source): the model predicts the number of runes of every text, the judge sees the texts
+func c20XProj(in, impl []int64) []int64 {
+	if len(in) == 0 || in[0] != 6 || (len(impl) == 1 && impl[0] < -1000000) {
+		return impl
+	}
+	var out []int64
+	for rest := impl; len(rest) > 0; {
+		var b []int64
+		b, rest = GetList(rest)
+		out = append(out, int64(utf8.RuneCount(ToBytes(b))))
+	}
+	return out
 }
 
 const c20Alphabet = "0123456789abcdefghjkmnprstuvwxyz"
@@ -386,6 +450,58 @@ func c20Gen(c *Ctx) {
 		t.C.Count("str-charset-runes", fmt.Sprint(nr))
 		t.Try(fam, in, n >= 1 && nr >= 1)
 	})
+	// ---- one StrGenerator object asked several times (longer then shorter, 0, equal lengths): a call must answer as a first call
+	// on what is left of the source, whatever the object produced before
+	c.Each(c.N(6000, 100000), func(i int, t *T) {
+		r := t.R
+		rs := css[r.Intn(len(css))]
+		cs := []byte(string(rs))
+		k := 2 + r.Intn(3)
+		if r.Intn(8) == 0 {
+			k = 2 + r.Intn(7)
+		}
+		ns := make([]int64, k)
+		for j := range ns {
+			switch r.Intn(6) {
+			case 0:
+				ns[j] = 0
+			case 1:
+				if j > 0 {
+					ns[j] = ns[j-1]
+					break
+				}
+				fallthrough
+			case 2:
+				ns[j] = int64(r.Intn(4))
+			case 3:
+				ns[j] = int64(20 + r.Intn(60))
+			default:
+				ns[j] = int64(r.Intn(24))
+			}
+		}
+		desc := false
+		for j := 1; j < k; j++ {
+			desc = desc || ns[j] < ns[j-1]
+		}
+		if i%4 == 3 {
+			// the package-level helper: randz.String on the shared default generator
+			in := append([]int64{6, int64(k)}, ns...)
+			in = append(in, PutList(Bytes([]byte(randz.CHAR_SET)))...)
+			t.Try("str-package-level-String-several-calls", in, desc)
+			return
+		}
+		in := append([]int64{5, int64(k)}, ns...)
+		in = append(in, PutList(Bytes(cs))...)
+		for j := r.Intn(10); j > 0; j-- {
+			w := r.Int63()
+			if r.Intn(4) == 0 {
+				w = 1<<63 - 1
+			}
+			hi, lo := c20Halves(w)
+			in = append(in, hi, lo)
+		}
+		t.Try("str-one-generator-several-calls", in, desc)
+	})
 	// ---- CountGenerator
 	c.Each(c.N(8000, 200000), func(i int, t *T) {
 		r := t.R
@@ -498,6 +614,32 @@ func c20Shrink(in []int64) [][]int64 {
 			c[4]--
 			out = append(out, c)
 		}
+	case 5, 6:
+		ns, _, _, ok := c20Multi(in)
+		if !ok || in[0] == 6 {
+			// randz.String: the default generator is shared by all cases of the process, a shrunk case may fail only because
+			// of what an earlier case left in it; the case as generated (with its longer-then-shorter calls) replays alone
+			return nil
+		}
+		k := len(ns)
+		for j := 0; j < k && k > 1; j++ { // drop a call
+			c := append([]int64{in[0], int64(k - 1)}, in[2:2+j]...)
+			out = append(out, append(c, in[3+j:]...))
+		}
+		for j := 0; j < k; j++ {
+			if ns[j] > 0 {
+				for _, v := range []int64{ns[j] / 2, ns[j] - 1} {
+					c := cp()
+					c[2+j] = v
+					out = append(out, c)
+				}
+			}
+		}
+		if in[0] == 5 { // drop the last word
+			if _, rest := GetList(in[2+k:]); len(rest) >= 2 {
+				out = append(out, cp()[:len(in)-2])
+			}
+		}
 	case 3:
 		cs, rest := GetList(in[2:])
 		if in[1] > 0 {
@@ -566,6 +708,19 @@ func c20Describe(in []int64) string {
 			ws = append(ws, fmt.Sprintf("%#x", c20Join(rest[i], rest[i+1])))
 		}
 		return fmt.Sprintf("NewStrGenerator(%q, source replaying [%s] then zeros).Generate(%d)", string(ToBytes(cs)), strings.Join(ws, " "), in[1])
+	case 5, 6:
+		ns, cs, rest, ok := c20Multi(in)
+		if !ok {
+			return "malformed"
+		}
+		if in[0] == 6 {
+			return fmt.Sprintf("randz.String (package level, one shared default generator over %q) called in a row with n = %v", string(ToBytes(cs)), ns)
+		}
+		var ws []string
+		for i := 0; i+1 < len(rest); i += 2 {
+			ws = append(ws, fmt.Sprintf("%#x", c20Join(rest[i], rest[i+1])))
+		}
+		return fmt.Sprintf("g := NewStrGenerator(%q, source replaying [%s] then zeros); g.Generate(n) in a row on the same g for n = %v", string(ToBytes(cs)), strings.Join(ws, " "), ns)
 	case 4:
 		idt, rest := GetList(in[1:])
 		if len(rest) == 0 {
@@ -586,10 +741,11 @@ func c20Describe(in []int64) string {
 var _ = rand.Int
 
 func init() {
-	Register(&Prop{ID: "C20", Num: 20, SpecMode: "rel", Gen: c20Gen, Impl: c20Impl, Shrink: c20Shrink, Describe: c20Describe,
+	Register(&Prop{ID: "C20", Num: 20, SpecMode: "rel", Gen: c20Gen, Impl: c20Impl, Shrink: c20Shrink, Describe: c20Describe, XProj: c20XProj, NumOf: c20NumOf,
 		Rule: "ParseBase32: exhaustive on all inputs of length 0,1,2 plus 3..15-byte texts with one foreign/near-miss byte at a random position and 13+ characters (int64 wrap); " +
 			"ID text forms: boundary values of every bit length 0..63 and of powers of 32, random ids per bit length (non-trivial = id >= 32, i.e. more than one base-32 digit); " +
 			"IdGenerator: start time now-e for e around 0, 2^40, 2^41, 2^42 and negative, randBit in {-3..40}, 1-4 ids 0-3 ms apart, each observation (id, elapsed-ms window) judged by the extracted Coq layout judge; " +
 			"StrGenerator: character sets of 1..65 runes with 1-4-byte runes, raw invalid bytes, empty set, n in 0..300 and negative, scripted Int63 words (random, all-ones, fields equal to len / len-1 / mask) then zeros (non-trivial = n >= 1 and non-empty set); " +
+			"one generator object asked 2-8 times in a row (lengths 0..80: longer then shorter, 0, equal), scripted source running on across the calls, and the package-level randz.String (shared default generator, real source: rune counts predicted, texts judged; Run/C120.v) (non-trivial = some call shorter than its predecessor); " +
 			"CountGenerator: 0..16 rules (ties in period allowed up to 12 rules), positive and a stream of non-positive parameters, every diff in [-2, 2*max period] for small periods, else random and period-boundary diffs (non-trivial = at least one rule). distinct = distinct case"})
 }
